@@ -14,7 +14,8 @@
 (*               such entries take no part in the stop test or the initial value)        *)
 (*       zl,lst  zl = 1: successor distributions list zero-probability entries for the   *)
 (*               states with lst[s] = 1 (DictDistribution with explicit zeros)           *)
-(* (O) oracle: MDP!OptimalValue, PolicyValue, StepsValue (exact rationals).              *)
+(* (O) oracle: MDP!OptimalValue, PolicyValue, StepsValue (exact rationals), extended to  *)
+(*     four non-absorbing states by a 4x4 Cramer solve (OptimalValueX ...).               *)
 (* (R) reference machine, one action per step of lrtdp.py:                               *)
 (*       StartTrial  lrtdp(): stop test over the initial states of positive probability, *)
 (*                   sample s0                                                           *)
@@ -53,8 +54,8 @@ EXTENDS MDP, Json, IOUtils
 
 Batch == JsonDeserialize(IOEnv.BATCH_FILE)
 
-VARIABLES iid, V, upd, solved, seen, ord, stack, pc, inexact, hist, ntr, mism, orc, term
-vars == <<iid, V, upd, solved, seen, ord, stack, pc, inexact, hist, ntr, mism, orc, term>>
+VARIABLES iid, V, upd, solved, seen, lact, ord, stack, pc, inexact, hist, ntr, mism, orc, term
+vars == <<iid, V, upd, solved, seen, lact, ord, stack, pc, inexact, hist, ntr, mism, orc, term>>
 
 M == Batch[iid]
 ModeOf(m) == m.mode
@@ -138,13 +139,42 @@ AllOf(S) == IF "bad" \in S THEN "bad" ELSE IF "unk" \in S THEN "unk" ELSE "ok"
 \* ------------------------------------------------------------------ oracle bundle (computed once per behaviour)
 CeilDiv(n, d) == -((-n) \div d)       \* d > 0
 HBackup(m, s) == MaxSet({QNum(m, m.h, s, a) : a \in Avail(m, s)})
+\* ---- oracle for four non-absorbing states (MDP!Solve stops at 3): Cramer with a 4x4 determinant by Laplace
+\* expansion over the closed 3x3 form.  Only for proper MDPs (every non-absorbing state is transient under
+\* every policy: no classification needed; a singular system = an improper policy).
+Minor4(mt, i, j) == [r \in 1..3 |-> [c \in 1..3 |-> mt[IF r < i THEN r ELSE r + 1][IF c < j THEN c ELSE c + 1]]]
+Det4(mt) == SumTo([j \in 1..4 |-> Sign(1, j) * mt[1][j] * Det(Minor4(mt, 1, j), 3)], 4)
+ReplCol(mt, j, b) == [r \in 1..4 |-> [c \in 1..4 |-> IF c = j THEN b[r] ELSE mt[r][c]]]
+Big(m) == Cardinality(NonAbs(m)) = 4
+Lin4(m, w, QD, gn, gd, rhs) ==        \* solves (gd*PD*QD*I - gn*Ppi) x = rhs on the non-absorbing states
+  LET ts  == SeqOfSet(NonAbs(m), m.N)
+      mt  == TLCEval([i \in 1..4 |-> [j \in 1..4 |-> (IF i = j THEN gd * m.PD * QD ELSE 0) - gn * PPi(m, w, ts[i], ts[j])]])
+      b   == TLCEval([i \in 1..4 |-> rhs[ts[i]]])
+      det == Det4(mt)
+  IN [s \in St(m) |-> IF s \in ExplAbs(m) THEN <<0, 1>>
+                       ELSE IF det = 0 THEN POS
+                       ELSE Norm(Det4(ReplCol(mt, IndexOf(ts, s), b)), det)]
+PolicyValueX(m, w, QD) ==
+  IF ~Big(m) THEN PolicyValue(m, w, QD)
+  ELSE Lin4(m, w, QD, m.GN, m.GD, [s \in St(m) |-> IF s \in ExplAbs(m) THEN 0 ELSE m.GD * RPi(m, w, s)])
+StepsValueX(m, w, QD) ==
+  IF ~Big(m) THEN StepsValue(m, w, QD)
+  ELSE Lin4(m, w, QD, 1, 1, [s \in St(m) |-> m.PD * QD])
+OptimalValueX(m) ==
+  IF ~Big(m) THEN OptimalValue(m)
+  ELSE LET vals == TLCEval({TLCEval(PolicyValueX(m, AsWeights(m, pi), 1)) : pi \in DetPols(m)})
+       IN IF Discounted(m)
+          THEN LET good == {v \in vals : SatisfiesOptimality(m, v)} IN
+               IF good = {} THEN Assert(FALSE, "no optimal deterministic policy found") ELSE CHOOSE v \in good : TRUE
+          ELSE [s \in St(m) |-> RMaxSet({v[s] : v \in vals})]
+
 Oracle(m) ==
-  LET vs == OptimalValue(m) IN
+  LET vs == TLCEval(OptimalValueX(m)) IN
   [vstar  |-> vs,
    \* lo[s] = the smallest value in units that is >= V*(s) (-LIM when it cannot be computed in 30 bits)
    lo     |-> [s \in St(m) |-> IF IsFin(vs[s]) /\ Fits(vs[s][1], SC(m)) THEN CeilDiv(vs[s][1] * SC(m), vs[s][2]) ELSE -LIM],
    vinit  |-> InitialValue(m, vs),
-   proper |-> \A pi \in DetPols(m) : LET st == TLCEval(StepsValue(m, AsWeights(m, pi), 1)) IN \A s \in NonAbs(m) : st[s] # POS,
+   proper |-> \A pi \in DetPols(m) : LET st == TLCEval(StepsValueX(m, AsWeights(m, pi), 1)) IN \A s \in NonAbs(m) : st[s] # POS,
    \* admissible: h >= V* everywhere (0 at absorbing states)
    adm    |-> AllOf({GLeq(GR(vs[s]), GInt(m.h[s], SC(m))) : s \in St(m)}),
    \* monotone (consistent): one backup of h does not exceed h at any non-absorbing state
@@ -158,9 +188,12 @@ NoOracle == [vstar |-> <<>>, lo |-> <<>>, vinit |-> <<0, 1>>, proper |-> TRUE, a
 \* certify; only at states the run never saw it is uniform over all maximisers of the same look-ahead
 \* (final values, heuristic where nothing is stored, absorbing successors worth 0).
 \* (m.repair = 0 gives the behaviour before that repair: deterministic only where a value is stored.)
-RetSup(m, v, u, sn, o) ==
+\* (m.repair = 2: a proposed further repair - a labelled state plays the action its label certified, la[s],
+\*  instead of the arg-max recomputed from the final values)
+RetSup(m, v, u, sn, o, la) ==
   [s \in NonAbs(m) |->
-     IF s \in u \/ (m.repair = 1 /\ s \in sn) THEN {Greedy(m, v, o, s)}
+     IF m.repair = 2 /\ la[s] # 0 THEN {la[s]}
+     ELSE IF s \in u \/ (m.repair >= 1 /\ s \in sn) THEN {Greedy(m, v, o, s)}
      ELSE LET mx == MaxSet({QNum(m, v, s, a) : a \in Avail(m, s)}) IN {a \in Avail(m, s) : QNum(m, v, s, a) = mx}]
 QDof(m, sup) == IF \A s \in NonAbs(m) : Cardinality(sup[s]) = 1 THEN 1
                 ELSE IF \A s \in NonAbs(m) : Cardinality(sup[s]) \in {1, 2} THEN 2 ELSE 6
@@ -169,8 +202,8 @@ Weights(m, sup, qd) == [s \in NonAbs(m) |-> [a \in Ac(m) |-> IF a \in sup[s] THE
 Evaluate(m, sup) ==
   LET qd == QDof(m, sup)
       w  == TLCEval(Weights(m, sup, qd))
-      pv == PolicyValue(m, w, qd)
-      st == StepsValue(m, w, qd)
+      pv == PolicyValueX(m, w, qd)
+      st == StepsValueX(m, w, qd)
   IN [pv |-> pv, steps |-> st, pinit |-> InitialValue(m, pv), ninit |-> InitialValue(m, st)]
 
 \* clause: V(s0) - V*(s0) <= margin * N^pi(s0) at the non-absorbing initial states
@@ -218,6 +251,7 @@ Init ==
   /\ ord \in {o \in Orders(Batch[iid]) : \A s \in St(Batch[iid]) : o[s] \in PermSeqs(Batch[iid].aord[s])}
   /\ V = [s \in St(Batch[iid]) |-> IF IsAbs(Batch[iid], s) THEN 0 ELSE Batch[iid].h[s]]
   /\ upd = {} /\ solved = {} /\ seen = {} /\ stack = <<>> /\ inexact = FALSE
+  /\ lact = [s \in St(Batch[iid]) |-> 0]
   /\ pc = IF ModeOf(Batch[iid]) \in {"judge", "judge2"} THEN ModeOf(Batch[iid]) ELSE "idle"
   /\ hist = [ch |-> <<>>, fail |-> 0, succ |-> 0]
   /\ ntr = 0 /\ mism = 0
@@ -239,7 +273,7 @@ StartTrial ==
             /\ hist' = [hist EXCEPT !.ch = Append(@, Choice(0, 0, 0, s0))]
             /\ ntr' = IF Scripted(M) THEN ntr + 1 ELSE ntr
             /\ mism' = Mark(M, ntr + 1, V, upd, solved)
-  /\ UNCHANGED <<iid, V, upd, solved, seen, ord, inexact, orc, term>>
+  /\ UNCHANGED <<iid, V, upd, solved, seen, lact, ord, inexact, orc, term>>
 
 \* one pass of the while loop of lrtdp_trial (the top of the stack is not solved)
 TrialStep ==
@@ -258,14 +292,14 @@ TrialStep ==
                   /\ solved' = IF IsAbs(M, t) THEN solved \cup {t} ELSE solved
                   /\ pc' = IF Len(stack) + 1 > M.L \/ t \in solved \/ IsAbs(M, t) THEN "eot" ELSE "trial"
                   /\ hist' = [hist EXCEPT !.ch = Append(@, Choice(1, s, a, t))]
-  /\ UNCHANGED <<iid, ord, ntr, mism, orc, term>>
+  /\ UNCHANGED <<iid, lact, ord, ntr, mism, orc, term>>
 
 \* listener point end_of_lrtdp_trial (between the trial loop and the labelling loop)
 EndTrial ==
   /\ pc = "eot" /\ pc' = "check"
   /\ ntr' = IF Scripted(M) THEN ntr + 1 ELSE ntr
   /\ mism' = Mark(M, ntr + 1, V, upd, solved)
-  /\ UNCHANGED <<iid, V, upd, solved, seen, ord, stack, inexact, hist, orc, term>>
+  /\ UNCHANGED <<iid, V, upd, solved, seen, lact, ord, stack, inexact, hist, orc, term>>
 
 \* s = visited.pop(); _check_solved(s); continue popping while it succeeds
 CheckStep ==
@@ -276,6 +310,8 @@ CheckStep ==
          closed == r[1]
          flag   == r[2]
      IN /\ seen' = seen \cup Range(closed)         \* policy() is called on every state that enters `closed`
+        \* ghost: the action the residual test certified when the state was labelled (the code does not keep it)
+        /\ lact' = IF flag THEN [t \in St(M) |-> IF t \in Range(closed) THEN Greedy(M, V, ord, t) ELSE lact[t]] ELSE lact
         /\ IF flag
            THEN /\ solved' = solved \cup Range(closed) /\ V' = V /\ upd' = upd
                 /\ inexact' = (inexact \/ ~CSExact(M, V, closed))
@@ -290,8 +326,8 @@ CheckStep ==
 \* the end-of-run clauses (computed once, when lrtdp() returns)
 \* "label-consistent" policy: the greedy action of the final values at every state (what the labelling
 \* procedure certified); differs from the returned policy only at states without a stored value
-TermBundle(m, v, u, sn, o, oc) ==
-  LET sup  == TLCEval(RetSup(m, v, u, sn, o))
+TermBundle(m, v, u, sn, o, la, oc) ==
+  LET sup  == TLCEval(RetSup(m, v, u, sn, o, la))
       sup2 == TLCEval([s \in NonAbs(m) |-> {Greedy(m, v, o, s)}])
       ev   == Evaluate(m, sup)
       ev2  == IF sup2 = sup THEN ev ELSE Evaluate(m, sup2)
@@ -301,6 +337,9 @@ TermBundle(m, v, u, sn, o, oc) ==
       gap |-> IF has THEN GapClause(m, v, oc.vstar, ev) ELSE "unk",
       ret |-> IF has THEN ReturnClause(m, oc.vinit, ev) ELSE "unk",
       fallback |-> sup2 # sup,
+      \* signature predicate "greedy flip": some labelled state's arg-max on the final values is no longer the
+      \* action its label certified (possible only when values can rise, i.e. the heuristic is not monotone)
+      flip |-> {s \in NonAbs(m) : la[s] # 0 /\ Greedy(m, v, o, s) # la[s]},
       gap2 |-> IF has THEN GapClause(m, v, oc.vstar, ev2) ELSE "unk",
       ret2 |-> IF has THEN ReturnClause(m, oc.vinit, ev2) ELSE "unk",
       abszero |-> AbsZeroClause(m, v, u)]
@@ -311,10 +350,10 @@ Finish ==
   /\ pc' = IF Scripted(M) /\ HasNext(M) THEN "diverged" ELSE "done"
   /\ ntr' = IF Scripted(M) THEN ntr + 1 ELSE ntr
   /\ mism' = Mark(M, ntr + 1, V, upd, solved)
-  /\ term' = IF inexact THEN <<>> ELSE TermBundle(M, V, upd, seen, ord, orc)
-  /\ UNCHANGED <<iid, V, upd, solved, seen, ord, stack, inexact, hist, orc>>
+  /\ term' = IF inexact THEN <<>> ELSE TermBundle(M, V, upd, seen, ord, lact, orc)
+  /\ UNCHANGED <<iid, V, upd, solved, seen, lact, ord, stack, inexact, hist, orc>>
 
-JudgeStep == pc \in {"judge", "judge2"} /\ pc' = (IF pc = "judge" THEN "judged" ELSE "judged2") /\ UNCHANGED <<iid, V, upd, solved, seen, ord, stack, inexact, hist, ntr, mism, orc, term>>
+JudgeStep == pc \in {"judge", "judge2"} /\ pc' = (IF pc = "judge" THEN "judged" ELSE "judged2") /\ UNCHANGED <<iid, V, upd, solved, seen, lact, ord, stack, inexact, hist, ntr, mism, orc, term>>
 
 Next == StartTrial \/ TrialStep \/ EndTrial \/ CheckStep \/ Finish \/ JudgeStep
 Spec == Init /\ [][Next]_vars
@@ -322,7 +361,7 @@ Spec == Init /\ [][Next]_vars
 \* behaviours that left the exact dyadic grid are cut (counted by the driver through the real runs)
 Exactness == ~inexact
 \* the history is not part of the explored state in mc mode; in trace mode the position is
-View == <<iid, V, upd, solved, seen, ord, stack, pc, inexact, ntr, mism, IF ModeOf(M) = "mc" THEN 0 ELSE Len(hist.ch)>>
+View == <<iid, V, upd, solved, seen, lact, ord, stack, pc, inexact, ntr, mism, IF ModeOf(M) = "mc" THEN 0 ELSE Len(hist.ch)>>
 
 \* ------------------------------------------------------------------ (P) properties
 Done == pc = "done" /\ term # <<>>
@@ -355,6 +394,12 @@ AbsorbingZero == /\ Machine => \A s \in ExplAbs(M) : V[s] = 0
 \* design lemma behind (P4)/(P5): the same bounds for the label-consistent policy (first maximiser of the
 \* final values everywhere) when the heuristic is monotone - then values only decrease, a labelled state
 \* keeps its greedy action and the bounds are theorems (Bonet & Geffner)
+\* a labelled state's value never changes, so with a monotone heuristic (values only decrease elsewhere) its
+\* certified action stays the arg-max: flips need an admissible heuristic that is not monotone
+NoFlipIfMonotone == (Machine /\ Done /\ orc.mono) => term.flip = {}
+\* and without a flip the end-of-run bounds are theorems for every admissible heuristic
+GapBoundNoFlip    == (Machine /\ Done /\ term.flip = {}) => term.gap # "bad"
+ReturnBoundNoFlip == (Machine /\ Done /\ term.flip = {}) => term.ret # "bad"
 GapBoundLC    == (Machine /\ Done /\ orc.mono) => term.gap2 # "bad"
 ReturnBoundLC == (Machine /\ Done /\ orc.mono) => term.ret2 # "bad"
 \* instance filters (evaluated in the initial states): a generator bug must not turn into a verdict
@@ -380,7 +425,7 @@ TermRecord ==
 DivergedRecord ==
   [iid |-> iid, tag |-> M.tag, kind |-> ModeOf(M), pc |-> pc, inexact |-> inexact, ntr |-> ntr, mism |-> mism,
    at |-> Len(hist.ch), v |-> V, upd |-> upd, solved |-> solved, top |-> IF stack = <<>> THEN 0 ELSE stack[Len(stack)],
-   vstar |-> orc.vstar, vinit |-> orc.vinit, adm |-> orc.adm, proper |-> orc.proper]
+   vstar |-> orc.vstar, vinit |-> orc.vinit, adm |-> orc.adm, proper |-> orc.proper, mono |-> orc.mono]
 \* judge: exact evaluation of the policy the real code returned (support sets M.pol[s][a] in {0,1})
 JudgeRecord ==
   LET sup  == TLCEval([s \in NonAbs(M) |-> {a \in Ac(M) : M.pol[s][a] = 1}])
@@ -409,6 +454,11 @@ Judge2Record ==
       \* admissible: (hA, hB) lexicographically >= (A*, B*) at every non-absorbing state
       adm |-> lo.ok /\ \A s \in NonAbs(M) : LexGeq(<<M.hA[s][1], M.hA[s][2]>>, <<M.hB[s][1], M.hB[s][2]>>, lo.a[s], lo.b[s]),
       proper |-> \A pi \in DetPols(M) : LET st == TLCEval(StepsValue(M, AsWeights(M, pi), 1)) IN \A s \in NonAbs(M) : st[s] # POS,
+      \* consistent (monotone) in the lexicographic sense: no backup of (hA, hB) exceeds it
+      mono |-> LET fa == [t \in St(M) |-> <<M.hA[t][1], M.hA[t][2]>>]
+                   fb == [t \in St(M) |-> <<M.hB[t][1], M.hB[t][2]>>]
+               IN \A s \in NonAbs(M) : \A a \in Avail(M, s) :
+                     LexGeq(fa[s], fb[s], QFromV(MA(M), fa, s, a), QFromV(MB(M), fb, s, a)),
       apv |-> pv[1], bpv |-> pv[2], steps |-> StepsValue(M, w, qd)]
 Emit ==
   /\ (pc = "done" /\ term # <<>>) => PrintT(ToJson(TermRecord))
